@@ -219,7 +219,10 @@ class LikelihoodModelResults:
             else:
                 return tmp[:, :, np.newaxis] * dispersion
         if matrix is None and column is None:
-            return self.cov * dispersion
+            if np.ndim(dispersion) == 0:
+                return self.cov * dispersion
+            # one dispersion per response: (parameters, parameters, responses)
+            return self.cov[:, :, np.newaxis] * dispersion
 
     def Tcontrast(self, matrix, store=('t', 'effect', 'sd'), dispersion=None):
         """ Compute a Tcontrast for a row vector `matrix`
@@ -364,19 +367,17 @@ class LikelihoodModelResults:
             `tails` can be "two", "upper", or "lower"
         '''
         if cols is None:
-            lower = self.theta - inv_t_cdf(1 - alpha / 2, self.df_resid) *\
-                    np.sqrt(np.diag(self.vcov(dispersion=dispersion)))
-            upper = self.theta + inv_t_cdf(1 - alpha / 2, self.df_resid) *\
-                    np.sqrt(np.diag(self.vcov(dispersion=dispersion)))
-        else:
-            lower, upper = [], []
-            for i in cols:
-                lower.append(
-                    self.theta[i] - inv_t_cdf(1 - alpha / 2, self.df_resid) *
-                    np.sqrt(self.vcov(column=i, dispersion=dispersion)))
-                upper.append(
-                    self.theta[i] + inv_t_cdf(1 - alpha / 2, self.df_resid) *
-                    np.sqrt(self.vcov(column=i, dispersion=dispersion)))
+            # all parameters; column by column, so that several responses
+            # (theta of shape (P, V)) each get their own dispersion
+            cols = range(self.theta.shape[0])
+        lower, upper = [], []
+        for i in cols:
+            lower.append(
+                self.theta[i] - inv_t_cdf(1 - alpha / 2, self.df_resid) *
+                np.sqrt(self.vcov(column=i, dispersion=dispersion)))
+            upper.append(
+                self.theta[i] + inv_t_cdf(1 - alpha / 2, self.df_resid) *
+                np.sqrt(self.vcov(column=i, dispersion=dispersion)))
         return np.asarray(list(zip(lower, upper)))
 
 
